@@ -373,8 +373,13 @@ def run_case(case, wd: Path, chooser_factory):
         finalised = []
         orig_meta = R.Repository.restore_metadata
 
+        mine = str((wd / 'out').resolve())
+
         def counting_meta(self, path, metadata, /):
-            finalised.append(str(path))
+            # loader threads left over from an EARLIER case (a failed restore does not stop them) also come through the
+            # patched class attribute: count only finalisations under this case's own target directory
+            if str(path).startswith(mine):
+                finalised.append(str(path))
             return orig_meta(self, path, metadata)
 
         proxy = RendezvousThreading(enabled=case['rendezvous'])
